@@ -335,7 +335,12 @@ func syncReplay(run *core.Run, tree *momTree, b *syncBehaviour, n int64, st *syn
 				if lastSeg != nil { // a duplicate of the previous element
 					batch = append(batch, wireAll(lastSeg)...)
 				} else if len(cur) > 0 {
-					batch = append(batch, tree.segment(cur)...) // re-delivery of the start element itself
+					seg := tree.segment(cur) // re-delivery of the start element itself
+					if cur[len(cur)-1] == "x" {
+						corrupt(seg, kind)
+					}
+					lastSeg = seg
+					batch = append(batch, seg...)
 				}
 				continue
 			}
